@@ -1612,14 +1612,21 @@ def check_case(case):
     require(getattr(type(e2), attr) == getattr(cls, attr), 'class-name-differs',
             lambda: f'type(e).{attr}: raised {getattr(cls, attr)!r}, caught '
                     f'{getattr(type(e2), attr)!r}\n{describe()}')
-  want_line = ''.join(traceback.format_exception_only(e)).split('\n')[0]
-  got_line = ''.join(traceback.format_exception_only(e2)).split('\n')[0]
-  # (comparable only while both objects read the same: a body that changed filename / lineno of
-  # a SyntaxError on the object it caught changed what the formatter prints for that object)
-  require(not late_message(e2)['visible'] or got_line.startswith(want_line.rstrip()),
-          'formatted-name-differs',
-          lambda: f'format_exception_only first line: original {want_line!r}, caught '
-                  f'{got_line!r}\n{describe()}')
+  try:
+    want_line = ''.join(traceback.format_exception_only(e)).split('\n')[0]
+  except Exception:  # pylint: disable=broad-except
+    # Python's own formatter cannot print the *original* (a NameError subclass whose `name` is a
+    # list makes it raise TypeError): there is no reference line to compare with
+    want_line = None
+    labels.add('original-not-formattable-by-python')
+  if want_line is not None:
+    got_line = ''.join(traceback.format_exception_only(e2)).split('\n')[0]
+    # (comparable only while both objects read the same: a body that changed filename / lineno of
+    # a SyntaxError on the object it caught changed what the formatter prints for that object)
+    require(not late_message(e2)['visible'] or got_line.startswith(want_line.rstrip()),
+            'formatted-name-differs',
+            lambda: f'format_exception_only first line: original {want_line!r}, caught '
+                    f'{got_line!r}\n{describe()}')
 
   # traceback: frame and line of the original raise
   entries = tb_entries(e2.__traceback__)
